@@ -43,6 +43,11 @@ ENV = {'classes': [
 ]}
 MODEL_CLASSES = {c[0] for c in ENV['classes']}
 
+# Which handle semantics of the memory file system the Lean model is asked to mirror: 'shared'
+# (the tree as it is: all handles of a file share one position, F130) or 'perhandle'
+# (fixes/C05-F130.patch applied).
+HANDLE_MODEL = os.environ.get('C05_HANDLE_MODEL', 'shared')
+
 TUPLE_MARKER = '__tuple__'
 TYPE_KEY = '_type'
 
@@ -419,6 +424,62 @@ def gen_store_case(rng, rich_records=False):
       else:
         ops.append({'k': 'mkdirs', 'p': os.path.dirname(p) + '/' + rng.choice(['', 'zz_dir', 'zz_dir/sub'])})
   return {'kind': 'store', 'ops': ops}
+
+
+def gen_hstore_case(rng):
+  """Histories with OPEN HANDLES as state: handles are opened, partially read / written, left open
+  across later saves / overwrites / appends / loads of the same path, closed later or never."""
+  tg = TreeGen(rng, floats=False, objects=False)
+  paths = gen_paths(rng, rng.randint(1, 3))
+  ops, written, nh = [], [], 0
+  live = []            # [index of the hopen, path, mode] of handles not yet closed
+  for _ in range(rng.randint(4, 14)):
+    p = rng.choice(written) if written and rng.chance(0.7) else rng.choice(paths)
+    k = rng.weighted([(5, 'save'), (5, 'load'), (2, 'seqw'), (2, 'seqr'), (4, 'hopen_r'), (1, 'hopen_w'),
+                      (1, 'hopen_a'), (5 if live else 0, 'hread'), (2 if live else 0, 'hreadline'),
+                      (2 if live else 0, 'hwrite'), (2 if live else 0, 'hclose'), (1, 'exists')])
+    if k == 'save':
+      ops.append({'k': 'save', 'p': p, 'v': tg.tree(rng.below(3))})
+      written.append(p)
+    elif k == 'load':
+      ops.append({'k': 'load', 'p': p})
+    elif k == 'seqw':
+      ops.append({'k': 'seqw', 'p': p, 'm': rng.choice(['w', 'a']),
+                  'r': [rng.choice(['r1', 'rec two', '{"a": 1}', '']) for _ in range(rng.below(3))]})
+      written.append(p)
+    elif k == 'seqr':
+      ops.append({'k': 'seqr', 'p': p})
+    elif k.startswith('hopen'):
+      m = k[-1]
+      if p not in written:
+        if m == 'r' and rng.chance(0.85):
+          continue                  # mostly open what exists
+        if m != 'r' and '/' in p[len('/mem/'):]:
+          ops.append({'k': 'save', 'p': p, 'v': tg.tree(1)})   # open() does not create directories
+          written.append(p)
+      ops.append({'k': 'hopen', 'p': p, 'm': m})
+      live.append([nh, p, m])
+      nh += 1
+      if m != 'r':
+        written.append(p)
+    elif k == 'exists':
+      ops.append({'k': 'exists', 'p': p})
+    else:
+      h = rng.choice(live)
+      if k == 'hread':
+        ops.append({'k': 'hread', 'h': h[0], 'n': rng.choice([None, None, 1, 3, 10])})
+      elif k == 'hreadline':
+        ops.append({'k': 'hreadline', 'h': h[0]})
+      elif k == 'hwrite':
+        writers = [x for x in live if x[2] != 'r']
+        if not writers:
+          continue
+        h = rng.choice(writers)
+        ops.append({'k': 'hwrite', 'h': h[0], 'c': rng.choice(['x', '[1]', 'line\n', '"s"'])})
+      else:
+        ops.append({'k': 'hclose', 'h': h[0]})
+        live.remove(h)
+  return {'kind': 'hstore', 'ops': ops}
 
 
 def gen_messy_store_case(rng):
@@ -823,12 +884,41 @@ class _Impl:
     """Runs a history; `root` is '/mem' or a temp dir standing in for it."""
     pg, pg_io = self.pg, self.pg_io
     outs = []
+    handles = []
 
     def mp(p):
       return root + p[len('/mem'):]
 
     for op in ops:
-      k, p = op['k'], mp(op['p'])
+      k = op['k']
+      if k in ('hread', 'hreadline', 'hwrite', 'hclose'):
+        f = handles[op['h']] if op['h'] < len(handles) else None
+        if f is None:
+          outs.append({'err': 'NoHandle'})
+          continue
+        try:
+          if k == 'hread':
+            outs.append({'c': f.read() if op['n'] is None else f.read(op['n'])})
+          elif k == 'hreadline':
+            outs.append({'c': f.readline()})
+          elif k == 'hwrite':
+            f.write(op['c'])
+            outs.append(None)
+          else:
+            f.close()
+            outs.append(None)
+        except Exception as e:   # pylint: disable=broad-except
+          outs.append({'err': type(e).__name__})
+        continue
+      p = mp(op['p'])
+      if k == 'hopen':
+        try:
+          handles.append(pg_io.open(p, op['m']))
+          outs.append({'h': True})
+        except Exception as e:   # pylint: disable=broad-except
+          handles.append(None)
+          outs.append({'err': type(e).__name__})
+        continue
       try:
         if k == 'save':
           pg.save(self.build(op['v']), p)
@@ -860,6 +950,12 @@ class _Impl:
           raise AssertionError(k)
       except Exception as e:   # pylint: disable=broad-except
         outs.append({'err': type(e).__name__})
+    for f in handles:          # OS handles must not leak out of the case (memory files: no effect on later cases)
+      if f is not None and root != '/mem':
+        try:
+          f.close()
+        except Exception:   # pylint: disable=broad-except
+          pass
     return outs
 
   def store(self, case):
@@ -872,7 +968,7 @@ class _Impl:
       else:
         model.append(o)
     out = {'model': {'outs': model}, 'outs': outs}
-    if not case.get('messy'):
+    if not case.get('messy') and case['kind'] == 'store':
       with self.tempfile.TemporaryDirectory(prefix='c05-') as tmp:
         std = self.run_ops(case['ops'], tmp)
       out['std'] = [sorted(o['n']) if isinstance(o, dict) and 'n' in o else o for o in std]
@@ -1039,12 +1135,15 @@ class C05(Prop):
           '`n_:` keys of all spellings int() accepts or rejects; store: histories of save/load/append/'
           'read/exists/listdir/mkdirs over 1-6 prefix-free /mem paths drawn from names over {m,e,a,x,…} '
           '(replayed on a temp dir of the OS file system too) plus a messy stream (paths inside files, '
-          'double slashes); spec: value specs / schemas / geno specs / DNA / functions. Non-trivial: a '
+          'double slashes); hstore: histories over 1-3 paths with OPEN HANDLES as state (open r/w/a, partial '
+          'read / readline / write through the handle, handles left open across later save / overwrite / '
+          'append / load of the same path, closed later or never; own-position abstract store as spec); spec: value specs / schemas / geno specs / DNA / functions. Non-trivial: a '
           'container or object value, a history with a write and a later read, a composite spec.')
   trusted_base = [
       "Python's json.dumps / json.loads (the text layer is an abstract bijection in the string-form theorem)",
       'pickle, copy.deepcopy, the OS file system (implementation-side oracle only)',
-      'io.StringIO (a memory file is modelled as its content; files are closed between API calls)',
+      'io.StringIO (code-point read / readline / write with NUL padding are modelled in C05Handles; the '
+      'closed-handle theorems treat a file as its content)',
       'modelled, not verified: to_json / from_json / Object.__init__ binding for field kinds '
       'Any Bool Int Str List Dict Object, `n_:` key coding incl. int() on ASCII, MemoryFileSystem '
       '(_internal_path, _locate, mkdirs, open w/a, read), LineSequence; tied by correspondence',
@@ -1091,6 +1190,8 @@ class C05(Prop):
         yield gen_messy_store_case(rng)
       else:
         yield gen_store_case(rng, rich_records=rng.chance(0.1))
+    for i in range(300 if quick else 15000):
+      yield gen_hstore_case(rng)
     if not quick:
       yield from self.exhaustive_paths()
     for i in range(n_spec):
@@ -1137,7 +1238,7 @@ class C05(Prop):
       return im.codec(case)
     if k in ('load', 'load_str'):
       return im.load(case)
-    if k == 'store':
+    if k in ('store', 'hstore'):
       return im.store(case)
     if k == 'spec':
       return im.spec(case)
@@ -1159,6 +1260,14 @@ class C05(Prop):
         else:
           ops.append(op)
       return {'op': 'store', 'cfg': 'patched', 'ops': ops}
+    if k == 'hstore':
+      ops = []
+      for op in case['ops']:
+        if op['k'] == 'save':
+          ops.append({'k': 'save', 'p': op['p'], 'c': json_text_of_tree(op['v'])})
+        else:
+          ops.append(op)
+      return {'op': 'hstore', 'cfg': HANDLE_MODEL, 'ops': ops}
     if k == 'spec' and case['what'] == 'spec':
       return {'op': 'sig'}
     if k == 'spec' and case['what'] == 'typed' and case['expr'] in TYPED_MODEL:
@@ -1188,7 +1297,7 @@ class C05(Prop):
     if k in ('load', 'load_str'):
       a, b = impl_out['model']['rt'], model_out['rt']
       return None if a == b else 'impl=%s model=%s' % (json.dumps(a)[:300], json.dumps(b)[:300])
-    if k == 'store':
+    if k in ('store', 'hstore'):
       a, b = impl_out['model']['outs'], model_out['outs']
       if a != b:
         for i, (x, y) in enumerate(zip(a, b)):
@@ -1244,6 +1353,8 @@ class C05(Prop):
         if f:
           return f
       return None
+    if k == 'hstore':
+      return self.hstore_oracle(case, out['outs'])
     if k == 'spec':
       if out['problems']:
         p = out['problems'][0]
@@ -1312,6 +1423,112 @@ class C05(Prop):
           return {'signature': 'store:exists-false', 'what': '[%s] op %d: %s written but exists() = %s' % (label, i, op['p'], o)}
     return None
 
+  def hstore_oracle(self, case, outs):
+    """Abstract store with handles: a file is its content; every handle has its OWN position;
+    'w' starts a new empty file (handles opened before it are stale). What the property demands:
+    load / sequence read return what was last written to the path. A failure while a handle of the
+    current file object is still open is the known shared-position defect (F130)."""
+    files = {}          # key -> {'c': content or None (unspecified), 'gen': n}
+    handles = []        # {'key','gen','pos','closed'} or None
+    gen = [0]
+    dirs = {()}
+
+    def fresh(key, content):
+      gen[0] += 1
+      files[key] = {'c': content, 'gen': gen[0]}
+
+    def open_current(key):
+      f = files.get(key)
+      return f is not None and any(h and h['key'] == key and h['gen'] == f['gen'] and not h['closed'] for h in handles)
+
+    def lines(recs):
+      return ''.join(r.rstrip('\n') + '\n' for r in recs)
+
+    for i, (op, o) in enumerate(zip(case['ops'], outs)):
+      k = op['k']
+      err = isinstance(o, dict) and o.get('err')
+      if k in ('hread', 'hreadline', 'hwrite', 'hclose'):
+        h = handles[op['h']] if op['h'] < len(handles) else None
+        if h is None:
+          continue
+        f = files.get(h['key'])
+        cur = f is not None and f['gen'] == h['gen']
+        if k == 'hclose':
+          h['closed'] = True
+        elif k == 'hwrite':
+          if cur and f['c'] is not None:
+            c, pos = f['c'], h['pos']
+            c = c + '\0' * (pos - len(c))
+            f['c'] = c[:pos] + op['c'] + c[pos + len(op['c']):]
+            h['pos'] = pos + len(op['c'])
+          elif f is not None:
+            # a write through a handle that predates a later 'w' of the path: POSIX would still
+            # reach the file, this file system writes into the detached old buffer — the property
+            # does not say; the content is unspecified until the next overwrite
+            f['c'] = None
+        elif cur and f['c'] is not None:
+          c, pos = f['c'], h['pos']
+          if k == 'hread':
+            n = len(c) if op['n'] is None else op['n']
+            h['pos'] = min(len(c), pos + n) if pos <= len(c) else pos
+          else:
+            j = c.find('\n', pos)
+            h['pos'] = len(c) if j < 0 else j + 1
+        continue
+      key = norm_path(op['p'])
+      if k in ('save', 'seqw') and not err:
+        for n in range(len(key)):
+          dirs.add(key[:n])
+      if k == 'hopen':
+        if err:
+          handles.append(None)
+          if err == 'FileNotFoundError' and key[:-1] not in dirs:
+            continue        # open() does not create directories
+          if op['m'] != 'r' or key in files:
+            return {'signature': 'store:open-raises', 'what': 'op %d open(%s, %s) raises %s' % (i, op['p'], op['m'], err)}
+          continue
+        if op['m'] == 'w' or (op['m'] == 'a' and key not in files):
+          fresh(key, '')
+        f = files.get(key)
+        if f is None:
+          return {'signature': 'store:open-of-unwritten', 'what': 'op %d opens %s which was never written' % (i, op['p'])}
+        handles.append({'key': key, 'gen': f['gen'], 'closed': False,
+                        'pos': len(f['c'] or '') if op['m'] == 'a' else 0})
+      elif k == 'save':
+        if err:
+          return {'signature': 'store:save-raises', 'what': 'op %d %s raises %s' % (i, op['p'], err)}
+        fresh(key, json_text_of_tree(op['v']))
+      elif k == 'seqw':
+        if err:
+          return {'signature': 'store:append-raises', 'what': 'op %d %s raises %s' % (i, op['p'], err)}
+        if op['m'] == 'w' or key not in files:
+          fresh(key, lines(op['r']))
+        elif files[key]['c'] is not None:
+          files[key]['c'] += lines(op['r'])
+      elif k in ('load', 'seqr'):
+        f = files.get(key)
+        if f is None:
+          if not err:
+            return {'signature': 'store:load-of-unwritten', 'what': 'op %d reads %s' % (i, o)}
+          continue
+        if f['c'] is None:
+          continue
+        if k == 'load':
+          ok = not err and o.get('c') == f['c']
+        else:
+          exp = f['c'].split('\n')
+          exp = exp[:-1] if exp and exp[-1] == '' else exp
+          ok = not err and o.get('r') == exp
+        if not ok:
+          sig = 'store:open-handle-shared-position' if open_current(key) else (
+              'store:load-mismatch' if k == 'load' else 'store:records-mismatch')
+          return {'signature': sig,
+                  'what': 'op %d: %s(%s) gives %s, the file holds %r' % (i, k, op['p'], json.dumps(o)[:200], f['c'][:200])}
+      elif k == 'exists':
+        if key in files and o is not True:
+          return {'signature': 'store:exists-false', 'what': 'op %d: %s written but exists() = %s' % (i, op['p'], o)}
+    return None
+
   def text_of(self, prev):
     if prev is None:
       return None
@@ -1328,7 +1545,7 @@ class C05(Prop):
       return isinstance(case['value'], dict) and 'f' not in case['value'] and 'build_error' not in out
     if k in ('load', 'load_str'):
       return isinstance(case['json'], dict)
-    if k == 'store':
+    if k in ('store', 'hstore'):
       ops = case['ops']
       wrote = set()
       for op in ops:
@@ -1369,6 +1586,12 @@ class C05(Prop):
     elif k in ('load', 'load_str'):
       rt = out['model']['rt']
       h.append('%s:%s' % (k, 'ok' if 'ok' in rt else rt['err']))
+    elif k == 'hstore':
+      h.append('hstore:handles=%d' % sum(1 for o in case['ops'] if o['k'] == 'hopen'))
+      closed = {o['h'] for o in case['ops'] if o['k'] == 'hclose'}
+      h.append('hstore:unclosed=%d' % (sum(1 for o in case['ops'] if o['k'] == 'hopen') - len(closed)))
+      for op, o in zip(case['ops'], out['outs']):
+        h.append('hstore:op:%s%s' % (op['k'], ':' + o['err'] if isinstance(o, dict) and o.get('err') else ''))
     elif k == 'store':
       h.append('store:%s' % ('messy' if case.get('messy') else 'paths=%d' % len({norm_path(o['p']) for o in case['ops']})))
       h.append('store:ops<=%d' % (4 if len(case['ops']) <= 4 else 8 if len(case['ops']) <= 8 else 12))
@@ -1382,6 +1605,15 @@ class C05(Prop):
 
   def shrink_candidates(self, case):
     k = case['kind']
+    if k == 'hstore':
+      ops = case['ops']
+      for i in range(len(ops)):
+        if ops[i]['k'] == 'hopen':
+          continue          # keeps the numbering of the handles
+        c = dict(case)
+        c['ops'] = ops[:i] + ops[i + 1:]
+        if c['ops']:
+          yield c
     if k == 'store':
       ops = case['ops']
       for i in range(len(ops)):
